@@ -48,6 +48,17 @@ def seed():
     return int(os.environ.get("VERIF_SEED", "0") or 0)
 
 
+def sample_vectors(rng, grid, n, k):
+    """k distinct vectors of length n over the TLA+ value strings in `grid`, as a TLA+ set of tuples (drawn with the harness's seeded
+    generator: what TLC's RandomSubset would draw cannot be repeated from one run to the next)."""
+    seen = set()
+    tries = 0
+    while len(seen) < k and tries < 50 * k:
+        seen.add(tuple(grid[int(i)] for i in rng.integers(len(grid), size=n)))
+        tries += 1
+    return "{%s}" % ", ".join("<<%s>>" % ", ".join(v) for v in sorted(seen))
+
+
 # ---------------------------------------------------------------- TLC
 _STAT = re.compile(r"(\d+) states generated, (\d+) distinct states found")
 _DEPTH = re.compile(r"The depth of the complete state graph search is (\d+)")
@@ -90,7 +101,7 @@ class TlcResult:
 def run_tlc(workdir, module, cfg=None, workers=None, timeout=1200, extra=(), env=None, xss=None, simulate=None, dump=None, coverage=False):
     """Run TLC on `module`.tla inside workdir. Returns TlcResult. Raises MachineryError on abort/timeout."""
     meta = tempfile.mkdtemp(prefix="meta-", dir=scratch())
-    cmd = ["tlc", "-workers", str(workers or NCPU), "-noGenerateSpecTE", "-metadir", meta]
+    cmd = ["tlc", "-workers", str(workers or NCPU), "-noGenerateSpecTE", "-metadir", meta, "-seed", str(seed())]  # (the seed fixes what RandomSubset draws: sampled cases are reproducible per VERIF_SEED)
     if cfg:
         cmd += ["-config", cfg]
     if simulate:
